@@ -1,0 +1,27 @@
+//go:build verif
+
+package crlrepository
+
+import (
+	"sort"
+
+	"github.com/gr33nbl00d/caddy-revocation-validator/crl/crlloader"
+	"github.com/gr33nbl00d/caddy-revocation-validator/crl/crlreader"
+)
+
+// Accessors used only by the verification harness (build tag verif).
+
+func (R *Repository) VerifIdentifiers() []string {
+	ids := R.getCurrentIdentifiers()
+	sort.Strings(ids)
+	return ids
+}
+
+func (R *Repository) VerifEntry(id string) *Entry { return R.getEntrySync(id) }
+
+func (R *Repository) VerifSetReader(r crlreader.CRLReader) { R.crlReader = r }
+
+func (R *Repository) VerifSetLoaderFactory(f crlloader.CRLLoaderFactory) { R.crlLoaderFactory = f }
+
+func (E *Entry) VerifLock()    { E.entryLock.Lock() }
+func (E *Entry) VerifUnlock()  { E.entryLock.Unlock() }
